@@ -1055,7 +1055,12 @@ func (c *compiler) createFunctionBindings(funcs []*ast.FunctionDeclaration) {
 			hasNonStandard := false
 			for _, decl := range funcs {
 				if !decl.Function.Async && !decl.Function.Generator {
-					s.bindNameLexical(decl.Function.Name.Name, false, int(decl.Function.Name.Idx1())-1)
+					b, created := s.bindNameLexical(decl.Function.Name.Name, false, int(decl.Function.Name.Idx1())-1)
+					if created && s.variable && s.outer.eval {
+						// top-level function of the variable scope of strict eval code: var-scoped,
+						// a var declaration of the same name is not a conflict
+						b.isVar = true
+					}
 				} else {
 					hasNonStandard = true
 				}
